@@ -140,7 +140,7 @@ theorem step_refines {s : HH} (h : WF lt s) (op : Op) (hpre : OpPre s op) :
       rw [hct]
       exact SpecStep.dequeue _ _ _ _ (root_isMin_abs h (by omega)) hperm
   | remove k =>
-    obtain ⟨s', hrun, hwf, hperm, _, _, hct⟩ := remove_abs h k hpre
+    obtain ⟨s', hrun, hwf, hperm, _, _, hct, _⟩ := remove_abs h k hpre
     refine ⟨s', _, by simp only [stepR, hrun]; rfl, hwf, ?_⟩
     rw [hct]
     exact SpecStep.remove _ _ _ k hperm
